@@ -528,3 +528,85 @@ Proof.
     rewrite push_str_value by (apply nl_free_cons; [reflexivity|assumption]).
     rewrite <- ?app_assoc. simpl. rewrite <- ?app_assoc. reflexivity.
 Qed.
+
+(* ================================================================== readable consequences of the spec *)
+(* class mentions with plain non-empty words: the merged value is the words joined by single spaces,
+   in written order *)
+Definition word_attr (w : str) : aattr := mkAAttr (Some s_class) (Some [VStr w]) VRaw false false false.
+
+Lemma join_class_words : forall ws w0,
+  w0 <> [] ->
+  join_class (Some [VStr w0]) (map word_attr ws) = Some [VStr (join [c_space] (w0 :: ws))].
+Proof.
+  induction ws as [|w ws IH]; intros w0 H0; [reflexivity|].
+  unfold join_class in *. cbn [map fold_left].
+  assert (E : merge_value (Some [VStr w0]) (aa_value (word_attr w)) [c_space] = Some [VStr (w0 ++ [c_space] ++ w)]).
+  { rewrite app_assoc. destruct w0; [contradiction|]. reflexivity. }
+  rewrite E. rewrite IH.
+  - f_equal. f_equal. f_equal. cbn [join]. destruct ws; rewrite <- ?app_assoc; reflexivity.
+  - destruct w0; [contradiction|discriminate].
+Qed.
+
+(* every name occurs once in the merged list, at the position of its first mention *)
+Fixpoint first_names (seen : list str) (l : list aattr) : list str :=
+  match l with
+  | [] => []
+  | a :: r =>
+      match named a with
+      | Some n => if mem_str n seen then first_names seen r else n :: first_names (n :: seen) r
+      | None => first_names seen r
+      end
+  end.
+
+Lemma named_merge_group : forall rv n a g,
+  named a = Some n -> Forall (fun b => named b = Some n) g -> named (merge_group rv n a g) = Some n.
+Proof.
+  intros rv n a g Ha Hg. unfold merge_group. destruct (str_eqb n s_class).
+  - unfold named in *. simpl. exact Ha.
+  - assert (L : named (last g a) = Some n).
+    { clear -Ha Hg. revert a Ha. induction g as [|b g IH]; intros a Ha; [exact Ha|].
+      inversion Hg; subst. rewrite last_cons_default. apply IH; assumption. }
+    unfold named in *. simpl. exact L.
+Qed.
+
+Lemma mentions_named : forall n l, n <> [] -> Forall (fun b => named b = Some n) (mentions n l).
+Proof.
+  intros n l Hn. unfold mentions. apply Forall_forall. intros b Hb. apply filter_In in Hb.
+  destruct Hb as [_ Hb]. apply opt_eqb_named; assumption.
+Qed.
+
+Theorem merge_spec_names : forall rv l seen,
+  anames (merge_spec rv seen l) = first_names seen l.
+Proof.
+  intros rv. induction l as [|a r IH]; intro seen; [reflexivity|].
+  cbn [merge_spec first_names]. destruct (named a) as [n|] eqn:E.
+  - destruct (mem_str n seen); [apply IH|].
+    unfold anames. cbn [flat_map]. fold (anames (merge_spec rv (n :: seen) r)).
+    pose proof (named_some _ _ E) as [_ Hn].
+    rewrite (named_merge_group rv n a (mentions n r) E (mentions_named n r Hn)).
+    simpl. rewrite IH. reflexivity.
+  - unfold anames. cbn [flat_map]. rewrite E. simpl. apply IH.
+Qed.
+
+Lemma first_names_fresh : forall l seen x, In x (first_names seen l) -> ~ In x seen.
+Proof.
+  induction l as [|a r IH]; intros seen x H; [contradiction|]. cbn [first_names] in H.
+  destruct (named a) as [n|]; [|apply IH; exact H].
+  destruct (mem_str n seen) eqn:M; [apply IH; exact H|].
+  destruct H as [H|H].
+  - subst. apply mem_str_not_In. exact M.
+  - apply IH in H. intro Hx. apply H. right. exact Hx.
+Qed.
+
+Theorem merge_spec_nodup : forall rv l, NoDup (anames (merge_spec rv [] l)).
+Proof.
+  intros rv l. rewrite merge_spec_names. generalize (@nil str) as seen.
+  induction l as [|a r IH]; intro seen; [constructor|]. cbn [first_names].
+  destruct (named a) as [n|]; [|apply IH].
+  destruct (mem_str n seen); [apply IH|].
+  constructor; [|apply IH]. intro H. apply first_names_fresh in H. apply H. left. reflexivity.
+Qed.
+
+Theorem merge_first_position : forall (rev_attrs : bool) (attrs : list aattr),
+  anames (merge_spec rev_attrs [] attrs) = first_names [] attrs /\ NoDup (anames (merge_spec rev_attrs [] attrs)).
+Proof. intros. split; [apply merge_spec_names|apply merge_spec_nodup]. Qed.
